@@ -8,7 +8,7 @@ CONSTANTS
   MaxNpts = 11
   Acts = {"CvSplit"}
   PtKinds = {"gen"}
-  WtKinds = {"none", "gen"}
+  WtKinds = {"none"}
   ExtraNodes <- Extra0
   NodeSize = 1
   Scenario = "single"
